@@ -80,7 +80,7 @@ fn packed_semantics(
     if let Some(m) = got {
         sem::post_conditions("packed find_in", m, pats.len(), hay.len(), span)?;
     }
-    let it: Vec<M> = guard(|| ps.find_iter(hay).map(to_m).collect()).map_err(|p| format!("packed find_iter panicked: {}", p))?;
+    let it: Vec<M> = guard(|| ps.find_iter(hay).take(hay.len() + 3).map(to_m).collect()).map_err(|p| format!("packed find_iter panicked: {}", p))?;
     for m in &it {
         sem::post_conditions("packed find_iter", *m, pats.len(), hay.len(), (0, hay.len()))?;
     }
@@ -208,7 +208,7 @@ fn c06_strategy(tier: Tier) -> BoxedStrategy<Case> {
         gen::search_case(SearchOpts {
             prop: "C06",
             cfg: CfgOpts { engines: vec![crate::case::Engine::TopAuto], mks: vec![Mk::LeftmostFirst], sks: vec![Sk::Unanchored], anchored: 0, casei: 0, ..CfgOpts::default() },
-            pats: PatOpts { w_empty: 0, max_class: 2, long: false, w_shapes: 2, w_adversarial: 1, w_fanout: 1 },
+            pats: PatOpts { w_empty: 0, max_class: 2, long: true, w_shapes: 2, w_adversarial: 1, w_fanout: 1 },
             hay: HayOpts { size_class },
             full_span_only: false,
             alphabets: vec![
